@@ -31,7 +31,7 @@ ASSUMPTIONS = ["elements/keys have lawful __eq__/__hash__ (tokens are mapped to 
                "CPython dict preserves insertion order; itertools.tee/islice/zip/zip_longest behave as documented",
                "negative maxsplit, window size 0, chunk size <= 0, overlap_size >= chunk_size and non-boolean "
                "partition keys are outside 'valid parameters' (modelled where cheap, not constrained by the Spec)"]
-TRUSTED = ["harness/translators/c09_loops.py (loops of split_iter / unique_iter / bucketize / redundant / chunked_iter -> Gallina; the argument "
+TRUSTED = ["harness/translators/c09_loops.py (loops of split_iter / unique_iter / bucketize / redundant / chunked_iter / lstrip_iter / rstrip_iter -> Gallina; the argument "
            "dispatch preludes are compared literally, not translated) and its stated let/if/continue/yield conventions",
            "harness/translators/c09_ranges.py (AST of chunk_ranges -> Model/C09_PyRanges.v program) and the interpreter's "
            "reading of that Python subset (range(), %, min, generator return)",
